@@ -79,6 +79,27 @@ def changed_orig_lines(pre: str, new: str) -> tuple[set[int], dict[int, int]]:
     return touched, mapping
 
 
+def marked_sites(pre: str, new: str, site_lines: list[int]):
+    """Sites carrying a unique `# site<k>` comment are located by it: (changed original lines, old -> new line map).
+    None when the sites are not marked."""
+    a = pre.split("\n")
+    b = new.split("\n")
+    touched: set[int] = set()
+    mapping: dict[int, int] = {}
+    for ln in site_lines:
+        if ln > len(a) or f"# site{ln}" not in a[ln - 1]:
+            return None
+        tag = f"# site{ln}"
+        hits = [j for j, t in enumerate(b) if t.rstrip().endswith(tag)]
+        if len(hits) != 1:
+            touched.add(ln)  # the line (or its comment) is gone or duplicated: it was rewritten
+            continue
+        mapping[ln] = hits[0] + 1
+        if b[hits[0]] != a[ln - 1]:
+            touched.add(ln)
+    return touched, mapping
+
+
 class Projector:
     """Builds one abstract trace from one recorded run."""
 
@@ -272,17 +293,15 @@ class Projector:
             site_lines = self.site_lines.get(rel)
             if site_lines is not None and pre_text is not None and new_text is not None:
                 touched, mapping = changed_orig_lines(pre_text, new_text)
+                marked = marked_sites(pre_text, new_text, site_lines)
+                if marked is not None:
+                    touched, mapping = marked
                 sites = sorted(touched & set(site_lines))
-                may = set(self.expect_in.get("siteMay", {}).get(rel, []))
-                for c in css:
-                    for ch in c["changes"]:
-                        ln = ch["line"]
-                        cands = [s for s in site_lines if s == ln or mapping.get(s) == ln]
-                        if not cands:
-                            continue
-                        good = [s for s in cands if s in may]
-                        clines.append((good or cands)[0])
-                clines = sorted(set(clines))
+                # a changeset numbers its change entries on one side of the diff: original or rewritten text
+                entry_lines = [ch["line"] for c in css for ch in c["changes"]]
+                c_orig = sorted({ln for ln in entry_lines if ln in site_lines})
+                c_new = sorted({s_ for s_ in site_lines for ln in entry_lines if mapping.get(s_) == ln})
+                clines = c_orig if c_orig == sites else (c_new if c_new == sites else (c_orig or c_new))
             _ = cs
         return {
             "ev": "FileEnd", "f": self.tok(rel), "o": outcome, "new": new, "post": post,
